@@ -244,7 +244,7 @@ def accepted_mechanism(kex, orig, new):
 
 
 # --------------------------------------------------------------------------------
-def judge_exchanges(ctx, lab, desc, expect):
+def judge_exchanges(ctx, lab, desc, expect, reported=None, algs=None):
     """Honest stratum oracle over all exchanges of a finished session."""
     c, s = lab.kh.calls["c"], lab.kh.calls["s"]
     if len(c) != expect or len(s) != expect:
@@ -297,8 +297,20 @@ def judge_exchanges(ctx, lab, desc, expect):
             ctx.violation("completed exchange whose reply signature does not verify under the host key shown",
                           "independent verification (cryptography/nacl) of the reply signature over the client's H failed",
                           dict(case=desc, exchange=i, sig_alg=name))
-        if name == lab.hostalg:
+        if name == (algs[i] if algs else lab.hostalg):
             ctx.count("reply_sig_alg_equals_negotiated")
+        if reported is not None:
+            # what get_remote_server_key() said right after this exchange vs the blob this exchange showed
+            ctx.count("remote_server_key_checks")
+            ctx.count("remote_server_key_checks_per_exchange")
+            if last_ks is not None and ks != last_ks:
+                ctx.count("exchanges_with_changed_host_key")
+            if reported[i] != ks:
+                ctx.violation("get_remote_server_key() differs from the host key blob in the reply"
+                              + (" (host key changed on rekey)" if last_ks is not None and ks != last_ks else ""),
+                              "after exchange %d the client reports a key that is not the one this exchange's reply "
+                              "carried (and whose signature was verified)" % i,
+                              dict(case=desc, exchange=i, reported=reported[i], shown=ks))
         last_ks = ks
     ctx.count("remote_server_key_checks")
     try:
@@ -371,6 +383,57 @@ def honest_case(ctx, kex, hostalg, nrekeys, sample):
             ctx.inconclusive("exchange bookkeeping did not settle (%r)" % desc)
             return
         judge_exchanges(ctx, lab, desc, 1 + nrekeys)
+    finally:
+        lab.close()
+
+
+def reported_key(lab):
+    try:
+        return lab.tc.get_remote_server_key().asbytes()
+    except Exception as e:
+        return repr(e)
+
+
+def multikey_case(ctx, kex, algs, sample):
+    """Server holds an RSA, an ECDSA and an Ed25519 host key; the client changes its host-key preference
+    before every re-exchange (either initiator), so consecutive exchanges are authenticated by different
+    keys.  Same monitors as the honest stratum, judged after every exchange."""
+    rng = ctx.rng
+    inits = [rng.choice("cs") for _ in algs[1:]]
+    desc = dict(stratum="honest-multikey", kex=kex, hostkeys=list(algs), initiators="".join(inits))
+    ctx.case(("multikey", kex, tuple(algs), tuple(inits)), sample=desc if sample else None)
+    keyset = [kexlab.hostkey(a) for a in ("ssh-rsa", "ecdsa-sha2-nistp256", "ecdsa-sha2-nistp384", "ssh-ed25519")]
+    # ECDSAKey objects of different curves share one table slot per curve name, RSA serves all three rsa names
+    lab = kexlab.Lab(rng, kex, algs[0], host_keys=keyset)
+    reported = []
+    try:
+        if not lab.start(timeout=60):
+            ctx.violation("honest handshake failed: %s" % sig_of(lab),
+                          "an unmodified client/server pair did not complete the key exchange",
+                          dict(case=desc, client_exc=repr(lab.pair.client_exc), server_exc=repr(lab.pair.server_exc)))
+            return
+        ctx.count("honest_handshakes_completed")
+        reported.append(reported_key(lab))
+        for who, alg in zip(inits, algs[1:]):
+            lab.tc.get_security_options().key_types = [alg]
+            r = rekey(lab, who)
+            if r == "timeout":
+                ctx.inconclusive("rekey did not finish within 60 s (%r)" % desc)
+                return
+            if r is not None:
+                ctx.violation("honest rekey failed: %s" % sig_of(lab),
+                              "renegotiate_keys() on an unmodified pair (host key type changed) raised",
+                              dict(case=desc, exc=repr(r)))
+                return
+            ctx.count("honest_rekeys_completed")
+            ctx.count("multikey.rekeys_completed")
+            reported.append(reported_key(lab))
+        n = len(algs)
+        if not pair.wait_for(lambda: len(lab.kh.calls["c"]) == n and len(lab.kh.calls["s"]) == n, 30):
+            ctx.inconclusive("exchange bookkeeping did not settle (%r)" % desc)
+            return
+        ctx.count("multikey.sessions")
+        judge_exchanges(ctx, lab, desc, n, reported=reported, algs=list(algs))
     finally:
         lab.close()
 
@@ -488,6 +551,17 @@ def run(ctx):
             for r in rek:
                 honest_case(ctx, kex, alg, r, sample=n < 2)
                 n += 1
+        # ---- honest, host key changes between exchanges -----------------------------------
+        pool = ("ssh-rsa", "ssh-ed25519", "ecdsa-sha2-nistp256", "rsa-sha2-512", "ecdsa-sha2-nistp384", "rsa-sha2-256")
+        for ki, kex in enumerate(kexlab.KEXES):
+            for v in range(2 if ctx.quick else 6):
+                n += 1
+                if not ctx.mine(n):
+                    continue
+                length = 2 + (ki + v + ctx.seed) % 3
+                start = (ki * 2 + v * 3 + ctx.seed) % len(pool)
+                algs = [pool[(start + 2 * t + (t * t) % 3) % len(pool)] for t in range(length)]
+                multikey_case(ctx, kex, algs, sample=False)
         # ---- corruption stratum --------------------------------------------------------
         j = 0
         n = 0
@@ -508,6 +582,9 @@ def run(ctx):
                         continue
                     corrupt_case(ctx, kex, alg, field, ex, sample=n < 2)
                     n += 1
+    ctx.require("multikey.sessions", 15)
+    ctx.require("exchanges_with_changed_host_key", 15)
+    ctx.require("remote_server_key_checks_per_exchange", 40)
     ctx.require("exchanges_compared", 100)
     ctx.require("rfc_hash_compared", 100)
     ctx.require("reply_signatures_verified_independently", 100)
